@@ -787,9 +787,20 @@ func wrapDisabled(d, exp Exp, lookup *TypeLookup) (Exp, error) {
 	case *SplitExp:
 		switch v := d.Value.(type) {
 		case *RefExp:
-			exp = &DisabledExp{
-				Disabled: v,
-				Value:    exp,
+			if _, ok := v.Forks[d.Call]; ok {
+				// Each fork of the call reads the output of its own fork
+				// of the referenced stage.
+				exp = &DisabledExp{
+					Disabled: v,
+					Value:    exp,
+				}
+			} else {
+				// The reference is to a collection, of which each fork
+				// of the call takes one element.
+				exp = &DisabledExp{
+					Disabled: d,
+					Value:    exp,
+				}
 			}
 		case *ArrayExp:
 			arr := *v
